@@ -707,6 +707,12 @@ impl PredicatePushdown {
         // Build result: common conditions + simplified OR
         let mut result = common;
 
+        // A branch with nothing left is exactly the common conditions, so the
+        // factored OR is `common AND (.. OR TRUE)` = `common`.
+        if remaining_branches.iter().any(|b| b.is_empty()) {
+            return Some(result);
+        }
+
         // Only add the OR if branches have remaining conditions
         let non_empty_branches: Vec<Expr> = remaining_branches
             .into_iter()
